@@ -17,6 +17,12 @@ CONSTANTS
   Queries <- MCQueriesC
   MaxCount = 12
   Tracks = {0, 1, 2}
+  Hscrolls = {FALSE}
+  HscrollOffs = {10}
+  KeepRights = {FALSE}
+  Scrollbars <- MCNoScrollbar
+  Borders = {FALSE}
+  Patterns <- MCPatternsNone
   Acts = {"move", "toggle"}
 INIT Init
 NEXT Next
